@@ -95,8 +95,8 @@ Hand == <<H1, H2, H3, H4, H5>>
 HandPrefixes == UNION {{SubSeq(Hand[h], 1, n) : n \in 1..Len(Hand[h])} : h \in DOMAIN Hand}
 
 -----------------------------------------------------------------------------
-Init == IF Mode = "gen" THEN S = <<>> /\ resv = {} /\ nres = 0 ELSE S \in HandPrefixes /\ resv = {} /\ nres = 0
-Next == IF Mode = "gen" THEN GenNext ELSE FALSE /\ UNCHANGED vars
+Init == S = <<>> /\ resv = {} /\ nres = 0
+Next == IF Mode = "gen" THEN GenNext ELSE S = <<>> /\ S' \in HandPrefixes /\ UNCHANGED <<resv, nres>>
 Spec == Init /\ [][Next]_vars
 
 AllTypes == ActTypes \cup MsgTypes \cup Types(S)
